@@ -13,6 +13,16 @@ C01.ts    ParsedName / ParsedNameIter typestate: who may construct, who may
           write pos/name_len.
 C01.ovf   no checked narrow-int arithmetic on wire-controlled counts/lengths
           without a dominating bound.
+C01.txt   Txt's accessors index octet 0 unconditionally (the type is "never
+          empty"): every constructor of a Txt from outside data (slice validator,
+          wire parser, builder) establishes non-emptiness first.
+C01.arr   a range into a fixed-size buffer whose end derives from message
+          octets is dominated by a bound <= the buffer's length.
+C01.skip  ParsedName::skip accepts uncompressed names of exactly the lengths
+          ParsedName::parse accepts (a message reads the same whether a
+          record is skipped or parsed).
+C01.window the type-bitmap validator accepts exactly the windows the unchecked
+          iterator can walk (1..=32 bitmap octets, window inside the data).
 C01.panic no explicit panic macro whose controlling value is wire-derived in
           functions reachable from the read-side entry points; typed unwraps
           of parse results are dominated by a discharging fact or audited.
@@ -21,7 +31,7 @@ import re
 
 from mirlib import BranchFacts, strip, deep_strip, show, walk, const_value
 from rulelib import (
-    bool_facts, canon_nobb, cyclic_blocks, dominating_edges, facts_at, fmt_path, leaf_def_blocks,
+    bool_facts, canon_nobb, control_terms, cyclic_blocks, dominating_edges, facts_at, fmt_path, leaf_def_blocks,
     interval_of, must_pass, on_every_cycle, outcome_facts, relation_edges, relations, return_assignments,
     succeeded_calls, failed_calls, upper_bounds,
 )
@@ -59,6 +69,9 @@ def run(ctx):
     rule_ovf(ctx, F)
     rule_panic(ctx, F)
     rule_window(ctx, F)
+    rule_txt(ctx, F)
+    rule_arr(ctx, F)
+    rule_skip(ctx, F)
 
 
 # ---------------------------------------------------------------------------
@@ -655,7 +668,7 @@ def rule_panic(ctx, F):
                     continue
                 # controlling values: terms of all dominating switch facts
                 ctrl = []
-                for tt, vv, e in facts_at(b, bi, F):
+                for tt in control_terms(b, bi, F):
                     for s in walk(deep_strip(tt)):
                         if s[0] == "call" and s[1] and WIRE_ACCESSORS.search(s[1]):
                             ctrl.append(s[1])
@@ -743,3 +756,182 @@ def rule_window(ctx, F):
     bad = [cb.path for cb, cbb, ct in mk if not re.search(r"RtypeBitmap(<|::<)", cb.path)]
     ctx.ob(R, "rdata::dnssec::RtypeBitmapIter::new", "only built from a validated RtypeBitmap", bool(mk) and not bad,
            "RtypeBitmapIter::new called from outside RtypeBitmap: %s" % bad)
+
+
+# ---------------------------------------------------------------------------
+# validator / parser agreement: TXT data is never empty
+# ---------------------------------------------------------------------------
+
+def rule_txt(ctx, F):
+    """`Txt::as_flat_slice` reads octet 0 without a check and the iterator
+    documents "at least one string": the type's invariant is non-emptiness.
+    The slice validator enforces it; the wire parser and the builder must
+    too, or a zero-length TXT RDATA from the network yields a value whose
+    accessors panic."""
+    R = "C01.txt"
+    ctx.floor(R, 3)
+    T = r"^rdata::rfc1035::txt::"
+    # (1) the slice validator rejects the empty slice
+    b = F.one_body(T + r"Txt::<\[u8\]>::check_slice$")
+    if ctx.anchor(R, "Txt::check_slice", b):
+        ok = False
+        for rb, si, kind, term in return_assignments(b):
+            if kind == "Err":
+                for tt, vv in bool_facts(b, rb, F):
+                    if tt[0] == "call" and (tt[1] or "").endswith("is_empty") and vv is True:
+                        ok = True
+        ctx.ob(R, b, "slice validator rejects empty data", ok,
+               "Txt::check_slice no longer rejects the empty slice although Txt's accessors index octet 0")
+    # (2) the wire parser establishes remaining() != 0 before building the value
+    b = F.one_body(T + r"Txt::<Octs>::parse$")
+    if ctx.anchor(R, "Txt::parse", b):
+        oks = [r for r in return_assignments(b) if r[2] == "Ok"]
+        ctx.anchor(R, "Ok return of Txt::parse", bool(oks), b.where())
+
+        def is_len(tt):
+            s = deep_strip(tt)
+            return s[0] == "call" and re.search(r"Parser::<.*>::remaining$|::len$", s[1] or "") and s[3] \
+                and deep_strip(s[3][0])[0] == "arg"
+        for rb, si, kind, term in oks:
+            lo, hi, excl = interval_of(b, rb, is_len, F)
+            nonempty = (lo is not None and lo >= 1) or 0 in (excl or ())
+            for tt, vv in bool_facts(b, rb, F):
+                if tt[0] == "call" and (tt[1] or "").endswith("is_empty") and vv is False and tt[3] and \
+                        any(s[0] == "arg" for s in walk(deep_strip(tt[3][0]))):
+                    nonempty = True
+            ctx.ob(R, b, "wire parser rejects zero-length TXT data", nonempty,
+                   "Txt::parse returns Ok for RDLENGTH 0 (no dominating remaining() != 0): the value violates the "
+                   "type's never-empty invariant that Txt::from_octets enforces, and as_flat_slice() indexes octet 0 "
+                   "of it (panic on a record from the network)", b.where(rb))
+    # (3) the builder never freezes an empty buffer
+    bs = [x for p, x in F.bodies.items() if re.match(T + r"TxtBuilder::<Builder>::finish$", p)]
+    if ctx.anchor(R, "TxtBuilder::finish", len(bs) == 1):
+        b = bs[0]
+        ok = False
+        for bb, t in b.calls_matching(r"::is_empty$"):
+            # on the empty edge an append happens before the value is built
+            for sw in b.reachable_blocks():
+                tsw = b.blocks[sw]["t"]
+                if tsw["k"] != "switch":
+                    continue
+                d = deep_strip(b.term_of_operand(tsw["d"]))
+                if d[0] == "call" and d[5] == bb:
+                    for s, lab in b.succs(sw):
+                        ef = BranchFacts(b, F).edge_facts(sw).get(lab)
+                        if ef and ef[1] is True:
+                            apps = [ab for ab, at in b.calls_matching(r"append_slice$") if ab in b.reach_from(s)]
+                            ok = ok or bool(apps)
+        ctx.ob(R, b, "builder pads an empty TXT with an empty string", ok,
+               "TxtBuilder::finish must not freeze an empty buffer into a Txt")
+    # (4) who else builds a Txt directly
+    n = 0
+    for p, x in F.bodies.items():
+        if "::test" in p:
+            continue
+        for bi in x.reachable_blocks():
+            for st in x.blocks[bi]["s"]:
+                if st[0] == "=" and st[2][0] == "agg" and st[2][1][0] == "adt" and st[2][1][1] == "rdata::rfc1035::txt::Txt":
+                    n += 1
+                    inside = re.match(T + r"(Txt|TxtBuilder)", p.lstrip("<")) is not None
+                    ctx.ob(R, x, "Txt built inside its module#%d" % n, inside, nontrivial=False, where=x.where(bi),
+                           msg="a Txt value is constructed directly outside rdata::rfc1035::txt (%s): the never-empty "
+                               "invariant is established only by the module's constructors" % p)
+
+
+# ---------------------------------------------------------------------------
+# wire-derived ranges into fixed-size buffers
+# ---------------------------------------------------------------------------
+
+WIRE_VALUE = re.compile(r"Parser::<.*>::(parse_u8|parse_i8|parse_u16_be|parse_u32_be|parse_u64_be|peek|remaining)$")
+
+
+def _array_len_of(b, t):
+    """N when the term is (a ref/unsizing of) a local of type [T; N]"""
+    for s in walk(t):
+        if s[0] == "repeat" and isinstance(s[2], int):
+            return s[2]
+        if s[0] == "cast" and len(s) > 4 and isinstance(s[4], str):
+            m = re.match(r"^(?:&(?:mut )?)?\[[^;\]]+; (\d+)\]$", s[4])
+            if m:
+                return int(m.group(1))
+        if s[0] in ("local", "arg"):
+            m = re.match(r"^(?:&(?:mut )?)?\[[^;\]]+; (\d+)\]$", b.locals[s[1]])
+            if m:
+                return int(m.group(1))
+    return None
+
+
+def rule_arr(ctx, F):
+    R = "C01.arr"
+    ctx.floor(R, 2)
+    n = 0
+    seen = {}
+    for p, b in F.bodies.items():
+        if not b.file.startswith("src/") or "::test" in p or p.startswith(("new::", "<new::")):
+            continue
+        for bi, t in b.calls():
+            fn = t["fn"] or ""
+            if not re.search(r"ops::Index(Mut)?::index(_mut)?$", fn) or len(t["targs"]) < 2:
+                continue
+            m = re.match(r"^\[[^;\]]+; (\d+)\]$", t["targs"][0])
+            if not m or "Range" not in t["targs"][1]:
+                continue
+            N = int(m.group(1))
+            rng = deep_strip(b.term_of_operand(t["args"][1]))
+            if rng[0] != "agg":
+                continue
+            kind = str(rng[1][1])
+            ends = []
+            if kind.endswith("RangeTo"):
+                ends = [(rng[2][0], 0)]
+            elif kind.endswith("RangeToInclusive"):
+                ends = [(rng[2][0], 1)]
+            elif kind.endswith("::Range"):
+                ends = [(rng[2][1], 0)]
+            elif kind.endswith("RangeFrom"):
+                ends = [(rng[2][0], 0)]
+            elif kind.endswith("RangeInclusive"):
+                continue
+            for e, plus in ends:
+                e = deep_strip(e)
+                if not any(s[0] == "call" and s[1] and WIRE_VALUE.search(s[1]) for s in walk(e)):
+                    continue
+                n += 1
+                best = None
+                for (x, rel, y) in relations(b, bi, F):
+                    if canon_nobb(deep_strip(x)) != canon_nobb(e):
+                        continue
+                    k = const_value(y)
+                    if k is None:
+                        yy = deep_strip(y)
+                        if yy[0] == "call" and (yy[1] or "").endswith("::len") and yy[3]:
+                            k = _array_len_of(b, yy[3][0])
+                    if k is None:
+                        continue
+                    hi = k - 1 if rel == "<" else k if rel == "<=" else None
+                    if hi is not None:
+                        best = hi if best is None else min(best, hi)
+                key = (p, kind.split("::")[-1])
+                seen[key] = seen.get(key, 0) + 1
+                ctx.ob(R, b, "%s into [_; %d]#%d" % (kind.split("::")[-1], N, seen[key]), best is not None and best + plus <= N,
+                       "a range ending at %s (read from the message) indexes a %d-element buffer, but the dominating "
+                       "guards only establish %s: out-of-bounds panic on hostile input"
+                       % (show(e)[:80], N, ("<= %d" % best) if best is not None else "no bound"), b.where(bi))
+    ctx.call_sites += n
+
+
+def rule_skip(ctx, F):
+    import c03
+    R = "C01.skip"
+    ctx.floor(R, 1)
+    sb = F.one_body(r"^base::name::parsed::ParsedName::<\(\)>::skip$")
+    pb = F.body("base::name::parsed::ParsedName::<&'a Octs>::parse_ref")
+    if not (ctx.anchor(R, "ParsedName::skip", sb) and ctx.anchor(R, "ParsedName::parse_ref", pb)):
+        return
+    caps = c03._caps(pb, F)
+    pmax = (max(v for _, v in caps.values()) + 1) if caps else None
+    smax = c03.skip_max_total(sb, F)
+    ctx.ob(R, sb, "skip and parse accept the same maximum name length", pmax is not None and smax == pmax,
+           "ParsedName::skip accepts uncompressed names of up to %s octets but ParsedName::parse up to %s: a record "
+           "that parses is rejected (or vice versa) when the section is skipped over, so two traversals of one "
+           "message disagree" % (smax, pmax))
